@@ -149,6 +149,19 @@ def run_cell(cell, twin=False):
         if r.kind in ('unsupported',):
             res['errors'].append('unsupported on path %s: %s' % (p['decisions'], r.exc))
             p['exc'] = str(r.exc)
+            # the encoding cannot follow the code here (exit 3 unless something is SHOWN): the path condition still has a
+            # model, and the real library can be run on it - a clause failing there is a demonstrated violation
+            if not twin and res.get('unsupported_witnesses', 0) < 6:
+                res['unsupported_witnesses'] = res.get('unsupported_witnesses', 0) + 1
+                rr, m = c.check()
+                if rr == 'sat':
+                    vals = {nm: S.model_value(m, zv) for nm, zv in c.zvar_by_name.items()}
+                    nv = len(res['violations'])
+                    nu = len(res['unreproduced'])
+                    _replay(cell, res, 'unsupported-path witness: ' + str(r.exc)[:80], vals, p)
+                    del res['unreproduced'][nu:]        # a passing witness adds nothing beyond the error already recorded
+                    for v in res['violations'][nv:]:
+                        v['found_by'] = 'real-library witness of a path the encoding could not follow'
         elif r.kind == 'budget':
             res['status'] = 'incomplete'
             p['exc'] = 'budget'
